@@ -401,6 +401,230 @@ theorem subShiftScale_par {f g : BPoly α} (hf : AllM V f) (hg : AllM V g) (i : 
       · rw [hA.mul a _ ha ht]
         exact decCoef_par hA hC hacc _ (hC.mul a _ ha ht)
 
+
+/-! ### division and rings -/
+
+/-- list of bivariate polynomials all valid -/
+def AllMM (V : α → Prop) (l : List (BPoly α)) : Prop := ∀ f ∈ l, AllM V f
+
+omit hA hC in
+theorem firstDiv_mem (o : Order) (pLd : Deg) (ignore : Option Nat) :
+    ∀ (gs : List (BPoly α)) (i : Nat) (r : Nat × BPoly α × Deg),
+      firstDiv o pLd ignore gs i = some r → r.2.1 ∈ gs := by
+  intro gs
+  induction gs with
+  | nil => intro i r h; cases h
+  | cons g t ih =>
+    intro i r h
+    simp only [firstDiv] at h
+    split at h
+    · exact List.mem_cons_of_mem _ (ih _ _ h)
+    · split at h
+      · cases h; exact List.mem_cons_self
+      · exact List.mem_cons_of_mem _ (ih _ _ h)
+
+theorem lcQuot_par (o : Order) {p g : BPoly α} (hp : AllM V p) (hg : AllM V g) :
+    lcQuot F' o p g = lcQuot F o p g ∧ V (lcQuot F o p g) := by
+  unfold lcQuot
+  have h1 := lc_V hC o hp
+  have h2 := lc_V hC o hg
+  dsimp only
+  rw [lc_congr hA, lc_congr hA, hA.isOne, hA.mul _ _ h1 h2, hA.inv _ h2, hA.zero]
+  split
+  · exact ⟨rfl, hC.mul _ _ h1 h2⟩
+  · cases hi : F.inv (lc F o g) with
+    | none => exact ⟨rfl, hC.zero⟩
+    | some i =>
+      have := hC.inv _ i h2 hi
+      simp only [hA.mul _ _ h1 this, true_and]
+      exact hC.mul _ _ h1 this
+
+theorem quoRemLoop_par (o : Order) (ignore : Option Nat) {gs : List (BPoly α)} (hgs : AllMM V gs) :
+    ∀ (fuel : Nat) (p : BPoly α) (qs : List (BPoly α)) (r : BPoly α),
+      AllM V p → AllMM V qs → AllM V r →
+      quoRemLoop F' o ignore gs fuel p qs r = quoRemLoop F o ignore gs fuel p qs r ∧
+      ∀ qs' r', quoRemLoop F o ignore gs fuel p qs r = some (qs', r') → AllMM V qs' ∧ AllM V r' := by
+  intro fuel
+  induction fuel with
+  | zero => intro p qs r _ _ _; exact ⟨rfl, fun _ _ h => by cases h⟩
+  | succ fuel ih =>
+    intro p qs r hp hqs hr
+    rw [quoRemLoop, quoRemLoop]
+    split
+    · exact ⟨rfl, fun _ _ h => by cases h; exact ⟨hqs, hr⟩⟩
+    · dsimp only
+      cases hff : firstDiv o (ld o p) ignore gs 0 with
+      | none =>
+        dsimp only
+        rw [coef_congr hA]
+        obtain ⟨e, hv⟩ := incCoef_par hA hC hr (ld o p) (coef_V hC hp (ld o p))
+        rw [e]
+        exact ih _ _ _ (erase_V hp _) hqs hv
+      | some igd =>
+        obtain ⟨i, g, dd⟩ := igd
+        have hg : AllM V g := hgs g (firstDiv_mem o _ ignore gs 0 _ hff)
+        obtain ⟨e1, hv1⟩ := lcQuot_par hA hC o hp hg
+        have hq : AllM V (qs.getD i []) := by
+          rw [List.getD_eq_getElem?_getD]
+          cases h : qs[i]? with
+          | none => exact nil_V
+          | some q => exact hqs q (List.mem_of_getElem? h)
+        obtain ⟨e2, hv2⟩ := incCoef_par hA hC hq dd hv1
+        obtain ⟨e3, hv3⟩ := subShiftScale_par hA hC hp hg dd hv1
+        dsimp only
+        rw [e1, e2, e3]
+        refine ih _ _ _ hv3 ?_ hr
+        intro f hf
+        rcases List.mem_or_eq_of_mem_set hf with h | rfl
+        · exact hqs f h
+        · exact hv2
+
+/-- result of bivariate `QuoRem` valid -/
+def QRM (V : α → Prop) (o : Except Kind (Option (List (BPoly α) × BPoly α))) : Prop :=
+  ∀ qs r, o = .ok (some (qs, r)) → AllMM V qs ∧ AllM V r
+
+theorem quoRem_par (o : Order) (fuel : Nat) (ignore : Option Nat) {f : BPoly α}
+    {gs : List (BPoly α)} (hf : AllM V f) (hgs : AllMM V gs) :
+    quoRem F' o fuel ignore f gs = quoRem F o fuel ignore f gs ∧
+      QRM V (quoRem F o fuel ignore f gs) := by
+  unfold quoRem
+  have hq : AllMM V (gs.map fun _ => ([] : BPoly α)) := by
+    intro q hq
+    obtain ⟨_, _, rfl⟩ := List.mem_map.1 hq
+    exact nil_V
+  obtain ⟨e, hv⟩ := quoRemLoop_par hA hC o ignore hgs fuel f _ _ hf hq nil_V
+  split
+  · exact ⟨rfl, fun _ _ h => by cases h⟩
+  · rw [e]
+    refine ⟨rfl, fun qs r h => ?_⟩
+    injection h with h
+    exact hv qs r h
+
+/-- result of `Rem` valid -/
+def RemM (V : α → Prop) (o : Except Kind (Option (BPoly α))) : Prop :=
+  ∀ r, o = .ok (some r) → AllM V r
+
+theorem rem_par (o : Order) (fuel : Nat) {f : BPoly α} {gs : List (BPoly α)} (hf : AllM V f)
+    (hgs : AllMM V gs) :
+    rem F' o fuel f gs = rem F o fuel f gs ∧ RemM V (rem F o fuel f gs) := by
+  unfold rem
+  obtain ⟨e, hv⟩ := quoRem_par hA hC o fuel none hf hgs
+  rw [e]
+  cases hq : quoRem F o fuel none f gs with
+  | error k => exact ⟨rfl, fun _ h => by cases h⟩
+  | ok r =>
+    refine ⟨rfl, fun x hx => ?_⟩
+    cases r with
+    | none => cases hx
+    | some qr =>
+      obtain ⟨qs, rr⟩ := qr
+      cases hx
+      exact (hv qs rr hq).2
+
+/-- the ring `R` with the coefficient record replaced -/
+def withFB (R : BPoly.Ring α) (G : FOps α) : BPoly.Ring α := { R with F := G }
+
+/-- the ring is over `F`, the generators of its ideal have valid coefficients -/
+structure BRingOK (F : FOps α) (V : α → Prop) (R : BPoly.Ring α) : Prop where
+  hF : R.F = F
+  hi : ∀ gs, R.ideal = some gs → AllMM V gs
+
+theorem reduceIn_par {R : BPoly.Ring α} (hR : BRingOK F V R) {f : BPoly α} (hf : AllM V f) :
+    reduceIn (withFB R F') f = reduceIn R f ∧ OptM V (reduceIn R f) := by
+  unfold reduceIn withFB
+  cases hid : R.ideal with
+  | none => exact ⟨rfl, fun _ h => by cases h; exact hf⟩
+  | some gs =>
+    dsimp only
+    rw [hR.hF]
+    obtain ⟨e, hv⟩ := rem_par hA hC R.ord divFuel hf (hR.hi gs hid)
+    rw [e]
+    cases hr : rem F R.ord divFuel f gs with
+    | error k => exact ⟨rfl, fun _ h => by cases h⟩
+    | ok r => exact ⟨rfl, fun v h => hv v (by rw [hr]; exact congrArg Except.ok h)⟩
+
+/-- result of `Times`/`Pow` valid -/
+theorem times_par {R : BPoly.Ring α} (hR : BRingOK F V R) {f g : BPoly α} (hf : AllM V f)
+    (hg : AllM V g) :
+    times (withFB R F') f g = times R f g ∧ RemM V (times R f g) := by
+  unfold times
+  have hF' : (withFB R F').F = F' := rfl
+  rw [hF', hR.hF]
+  obtain ⟨e, hv⟩ := mulNoReduce_par hA hC hf hg
+  rw [e]
+  cases hm : mulNoReduce F f g with
+  | none => exact ⟨rfl, fun _ h => by cases h⟩
+  | some p =>
+    obtain ⟨e2, hv2⟩ := reduceIn_par hA hC hR (hv p hm)
+    dsimp only
+    rw [e2]
+    exact ⟨rfl, fun r h => hv2 r (by injection h)⟩
+
+theorem powLoop_par {R : BPoly.Ring α} (hR : BRingOK F V R) :
+    ∀ (fuel n : Nat) (out g : BPoly α), AllM V out → AllM V g →
+      BPoly.powLoop (withFB R F') fuel n out g = BPoly.powLoop R fuel n out g ∧
+      RemM V (BPoly.powLoop R fuel n out g) := by
+  intro fuel
+  induction fuel with
+  | zero => intro n out g _ _; exact ⟨rfl, fun _ h => by cases h⟩
+  | succ fuel ih =>
+    intro n out g ho hg
+    rw [BPoly.powLoop, BPoly.powLoop]
+    split
+    · exact ⟨rfl, fun _ h => by cases h; exact ho⟩
+    · obtain ⟨e1, hv1⟩ := times_par hA hC hR ho hg
+      obtain ⟨e2, hv2⟩ := times_par hA hC hR hg hg
+      dsimp only
+      rw [e1, e2]
+      have ho' : RemM V (if n % 2 = 1 then times R out g else .ok (some out)) := by
+        split
+        · exact hv1
+        · exact fun _ h => by cases h; exact ho
+      cases h1 : (if n % 2 = 1 then times R out g else Except.ok (some out)) with
+      | error k => exact ⟨rfl, fun _ h => by cases h⟩
+      | ok oo =>
+        cases oo with
+        | none => exact ⟨rfl, fun _ h => by cases h⟩
+        | some o1 =>
+          dsimp only
+          split
+          · exact ⟨rfl, fun _ h => by cases h; exact ho' o1 h1⟩
+          · cases h2 : times R g g with
+            | error k => exact ⟨rfl, fun _ h => by cases h⟩
+            | ok gg =>
+              cases gg with
+              | none => exact ⟨rfl, fun _ h => by cases h⟩
+              | some g2 => exact ih _ _ _ (ho' o1 h1) (hv2 g2 h2)
+
+theorem pow_par {R : BPoly.Ring α} (hR : BRingOK F V R) {f : BPoly α} (hf : AllM V f) (n : Nat) :
+    BPoly.pow (withFB R F') f n = BPoly.pow R f n ∧ RemM V (BPoly.pow R f n) := by
+  unfold BPoly.pow
+  have hF' : (withFB R F').F = F' := rfl
+  have h1 : AllM V [(((0, 0) : Deg), F.one)] := fun x hx => by
+    rw [List.mem_singleton] at hx; rw [hx]; exact hC.one
+  obtain ⟨e, hv⟩ := reduceIn_par hA hC hR h1
+  rw [hF', hA.one, hR.hF, e]
+  cases h : reduceIn R [((0, 0), F.one)] with
+  | none => exact ⟨rfl, fun _ h => by cases h⟩
+  | some o => exact powLoop_par hA hC hR 70 n o f (hv o h) hf
+
+theorem ofMap_par {R : BPoly.Ring α} (hR : BRingOK F V R) {m : List (Deg × α)} (hm : AllM V m) :
+    ofMap (withFB R F') m = ofMap R m ∧ OptM V (ofMap R m) := by
+  unfold ofMap
+  have hF' : (withFB R F').F = F' := rfl
+  rw [hF', hR.hF, hA.isZero]
+  obtain ⟨-, hv⟩ := foldl_par (AllM V) (fun x : Deg × α => V x.2)
+    (fun acc (x : Deg × α) => if F.isZero x.2 then acc else put acc x.1 x.2)
+    (fun acc (x : Deg × α) => if F.isZero x.2 then acc else put acc x.1 x.2)
+    (fun acc x hacc hx => ⟨rfl, by split; exact hacc; exact put_V hacc _ hx⟩) m [] hm nil_V
+  exact reduceIn_par hA hC hR hv
+
+omit hC in
+theorem toStr_congr {R : BPoly.Ring α} (hR : R.F = F) (f : BPoly α) :
+    BPoly.toStr (withFB R F') f = BPoly.toStr R f := by
+  unfold BPoly.toStr withFB
+  simp only [hR, coef_congr hA, hA.isOne, hA.nTerms, hA.toStr]
+
 end Par
 end B
 end Tables
